@@ -280,7 +280,7 @@ theorem Grows_lineParas (lines : List Str) (style : Option Run) (sup : Bool) (pp
         if (parseMdStyle line).1.isEmpty && (parseMdStyle line).2.isNone then (acc.1, acc.2)
         else ((acc.1.newRev).1, acc.2 ++ [Block.para (match (parseMdStyle line).2 with
           | some l => { style := some (headingStyleId l), ppr := [], nodes := [.ins (acc.1.newRev).2 (insRuns (parseMdStyle line).1 style sup)] }
-          | none => { style := ppr.style, ppr := ppr.ppr, nodes := [.ins (acc.1.newRev).2 (insRuns (parseMdStyle line).1 style sup)] })])) acc).1 by
+          | none => { style := ppr.style, ppr := copyPPr ppr.ppr, nodes := [.ins (acc.1.newRev).2 (insRuns (parseMdStyle line).1 style sup)] })])) acc).1 by
     exact h (s, []) (Grows.refl s)
   induction lines with
   | nil => intro acc h; exact h
